@@ -39,7 +39,7 @@ def jobs(tier, seed):
     for length in (1, 2):
         for plist in ([0, 1], [2, 0, 1]):
             for p in ('float64', 'float32'):
-                n = 2 * len(plist) + (1 if length == 1 else 0)
+                n = 2 * len(plist) + (1 if length == 1 else 0) + (0 if tier == 'quick' else 2)
                 js.append(dict(name=f'build-L{length}-p{"".join(map(str, plist))}-{p}', kind='build', length=length, plist=plist, p=p, n=n))
     for variant in ('static', 'dpa'):
         for length in (1, 2):
